@@ -1,6 +1,6 @@
 INIT TInit
 NEXT TNext
-INVARIANTS WellFormed AllExplained
+INVARIANT WellFormed
 POSTCONDITION Accepted
 CHECK_DEADLOCK FALSE
 CONSTANTS
